@@ -347,3 +347,4 @@ def check(facts, rep, tier, cfg):
     rep.rule("C16.S7", "who-may: the functions that touch the critical resources behind this property are those of the reference tree (flow table, closed flag, per-stream / datagram / outbound queues, last-pong timestamp, client id maps, shared TLS identity)")
     import whomay
     whomay.check(facts, rep, "C16.S7", "C16")
+    whomay.check_new_statics(facts, rep, "C16.S7", "C16")
